@@ -896,6 +896,15 @@ class SpecMixin(object):
             cache[c.qual] = name
         return cache[c.qual]
 
+    def mentions_local_ghost(self, text):
+        """invocation-local audit ghosts are neither havocked nor framed at call sites; a callee clause that talks about
+        them must therefore not be assumed there (it would relate the caller's unrelated copy)"""
+        import re as _re
+        if not isinstance(text, str) or not self.spec.local_ghosts:
+            return False
+        return any(_re.search(r'(?<![A-Za-z0-9_.])%s(?![A-Za-z0-9_])' % _re.escape(g), text)
+                   for g in self.spec.local_ghosts)
+
     def apply_call_ghosts(self, st, c, env, node):
         cur = getattr(self, 'contract', None)
         if cur is None or not cur.ghost_on_call or self.call_depth or self.spec_mode:
@@ -952,7 +961,57 @@ class SpecMixin(object):
             out.append(Res(self.ghost_set(r.st, 'excl', mine), r.val, r.exc))
         return out
 
+    def inline_generator(self, st, c, args, kw, node, recv=None, star=None):
+        """a plain generator function (kind='generator'): its REAL body is executed at the call site and the yielded
+        values are collected, per path, into a static tuple -- `for x in gen(...)` is then unrolled.  Only for
+        generators that yield a statically bounded number of values on every path (no yield inside a symbolic loop)."""
+        self.used_contracts.add(c.qual)
+        fi = self.src.find(c.qual)
+        st1, env = self.bind_call(st, c, args, kw, node, recv, star)
+        if env is None:
+            return st1
+        if self.call_depth > 6:
+            self.oos('generator inlining recursion', node)
+        caller_env = st.env
+        st2 = st1.copy()
+        st2.env = dict(env)
+        st2.env['$yields'] = mk_py(('yields', []))
+        saved = (self.yield_hook, self.modinfo)
+
+        def hook(e, s):
+            res = []
+            for r in (self.ev(e.value, s) if e.value is not None else self.ok(s, mk_none())):
+                if r.exc is not None:
+                    res.append(r)
+                    continue
+                acc = r.st.env['$yields'].py[1]
+                res.append(Res(r.st.setvar('$yields', mk_py(('yields', acc + [r.val]))), mk_none()))
+            return res
+        self.yield_hook = hook
+        self.modinfo = fi.module
+        self.call_depth += 1
+        out = []
+        try:
+            for o in self.ex_block(fi.node.body, st2):
+                s3 = o.st.copy()
+                vals = o.st.env['$yields'].py[1]
+                s3.env = caller_env
+                if o.kind in ('next', 'return'):
+                    out.append(Res(s3, self.mk_tuple(list(vals))))
+                elif o.kind == 'raise':
+                    out.append(Res(s3, None, o.exc))
+                else:
+                    self.oos('break/continue escaping a generator body', node)
+        finally:
+            self.call_depth -= 1
+            self.yield_hook, self.modinfo = saved
+        self.notes.append('generator %s inlined at line %s (real body executed, yields collected)'
+                          % (c.qual, getattr(node, 'lineno', '?')))
+        return out
+
     def call_contract_body(self, st, c, args, kw, node, recv=None, star=None):
+        if c.kind == 'generator':
+            return self.inline_generator(st, c, args, kw, node, recv, star)
         self.used_contracts.add(c.qual)
         self.use_axioms(c)
         if c.kind == 'coroutine' and not self._awaiting:
@@ -1012,6 +1071,8 @@ class SpecMixin(object):
         feasible = True
         conds = []
         for ens in list(c.ensures) + list(c.assumed):
+            if self.mentions_local_ghost(ens):
+                continue        # clause about the callee's own audit ghosts: an obligation of the callee, not a fact for callers
             cz = self.spb(ens, post, -1)
             if z3.is_false(cz):
                 feasible = False
@@ -1046,6 +1107,8 @@ class SpecMixin(object):
             zs = []
             dead = False
             for ec in ([econds] if isinstance(econds, str) else econds):
+                if self.mentions_local_ghost(ec):
+                    continue
                 cz = self.spb(ec, epost, -1)
                 if z3.is_false(cz):
                     dead = True
